@@ -5,11 +5,13 @@
 //!   replay run <history.json>                          exit 0 = all twins hold, 1 = a twin fails (printed as JSON)
 //!   replay search --prop Cxx [--depth d] [--seed s] [--random n] [--len l] [--ties] [--out file]
 //!                                                       exit 0 = nothing found, 1 = failing history written to --out
+//!   replay pytwin <script.json>                         Rust side of the Python/Rust differential twin (C18)
 //!   replay truncate [--seed s]                          bounded stand-in of C07: every byte prefix of written snapshots is rejected
 mod agentrun;
 mod envrun;
 mod marketrun;
 mod model;
+mod pytwin;
 use bourse_book::types::{Event, Order, Side, Status, Trade};
 use bourse_book::OrderBook;
 use model::*;
@@ -1057,6 +1059,11 @@ fn main() {
                 }
                 None => println!("{{\"found\": false}}"),
             }
+        }
+        "pytwin" => {
+            let text = std::fs::read_to_string(&args[2]).expect("script file");
+            let v: serde_json::Value = serde_json::from_str(&text).unwrap();
+            println!("{}", serde_json::to_string(&pytwin::run(&v)).unwrap());
         }
         "market-snapshot" => {
             let seed: u64 = arg(&args, "--seed").map_or(0, |s| s.parse().unwrap());
